@@ -21,18 +21,100 @@ pub struct Case {
     /// when present, these parser inputs are decoded (and re-encoded when accepted) instead
     #[serde(default)]
     pub codec: Option<Vec<crate::props::c16::Case>>,
+    /// when present, the connections of the pair are handed to another thread when the history is over (the library
+    /// declares HalfConnection Send): 0 both are dropped there, 1 they are used there first (send, step, flush,
+    /// receive), 2 one is dropped there and one here
+    #[serde(default)]
+    pub thread_move: Option<u8>,
 }
 
 pub struct C19;
 
 thread_local! {
     static WARM: Cell<bool> = const { Cell::new(false) };
+    static WARM_MOVE: Cell<bool> = const { Cell::new(false) };
 }
 
 struct Outcome {
     multi_frag_odd_delivered: bool,
     dropped_in_flight: bool,
     deliveries: usize,
+    /// live-byte change on the helper thread (connections handed to it are released there)
+    other_thread_delta: i64,
+}
+
+// ---- helper thread (one per worker, started lazily): runs one job at a time and reports how the live-byte count of
+// ---- ITS thread changed while the job ran. Only a pre-allocated mutex / condvar pair is involved in the hand-over, so
+// ---- every block that changes hands is allocated inside the measured interval of one thread and released inside
+// ---- that of the other: the two changes add up to zero exactly when nothing is left behind on either thread.
+type Job = Box<dyn FnOnce() + Send>;
+struct Helper {
+    slot: std::sync::Mutex<(Option<Job>, Option<(i64, Mismatches, Option<crate::panics::PanicInfo>)>)>,
+    cv: std::sync::Condvar,
+}
+#[derive(Clone, Copy, Default)]
+struct Mismatches {
+    layout: u64,
+    double_free: u64,
+    invalid_free: u64,
+}
+thread_local! {
+    static OTHER_THREAD_PANIC: std::cell::RefCell<Option<crate::panics::PanicInfo>> = const { std::cell::RefCell::new(None) };
+    static OTHER_THREAD_FAULTS: Cell<(u64, u64, u64)> = const { Cell::new((0, 0, 0)) };
+    static HELPER: std::cell::RefCell<Option<std::sync::Arc<Helper>>> = const { std::cell::RefCell::new(None) };
+}
+
+fn on_other_thread(job: Job) -> (i64, Mismatches, Option<crate::panics::PanicInfo>) {
+    let h = HELPER.with(|c| {
+        let mut c = c.borrow_mut();
+        if c.is_none() {
+            let h = std::sync::Arc::new(Helper { slot: std::sync::Mutex::new((None, None)), cv: std::sync::Condvar::new() });
+            let h2 = h.clone();
+            std::thread::spawn(move || loop {
+                let job = {
+                    let mut g = h2.slot.lock().unwrap();
+                    while g.0.is_none() {
+                        g = h2.cv.wait(g).unwrap();
+                    }
+                    g.0.take().unwrap()
+                };
+                alloc::reset_mismatches();
+                let _ = (alloc::take_double_frees(), alloc::take_invalid_frees());
+                let before = alloc::live();
+                let panicked = std::panic::catch_unwind(std::panic::AssertUnwindSafe(job)).is_err();
+                let pi = if panicked { crate::panics::take_last() } else { None };
+                let delta = alloc::live() - before;
+                let mm = Mismatches { layout: alloc::mismatches().count, double_free: alloc::take_double_frees().0, invalid_free: alloc::take_invalid_frees() };
+                let mut g = h2.slot.lock().unwrap();
+                g.1 = Some((delta, mm, pi));
+                h2.cv.notify_all();
+            });
+            *c = Some(h);
+        }
+        c.as_ref().unwrap().clone()
+    });
+    let mut g = h.slot.lock().unwrap();
+    g.0 = Some(job);
+    h.cv.notify_all();
+    loop {
+        if let Some(r) = g.1.take() {
+            return r;
+        }
+        g = h.cv.wait(g).unwrap();
+    }
+}
+
+struct NullFrames(usize);
+impl uflow::verif::FrameSink for NullFrames {
+    fn send(&mut self, frame_data: &[u8]) {
+        self.0 += frame_data.len();
+    }
+}
+struct NullPackets(usize);
+impl uflow::verif::PacketSink for NullPackets {
+    fn send(&mut self, packet_data: Box<[u8]>) {
+        self.0 += packet_data.len();
+    }
 }
 
 fn exercise_codec(inputs: &[Vec<u8>]) -> usize {
@@ -59,7 +141,7 @@ fn exercise(case: &Case) -> Outcome {
         let deliveries = log.world.server_events.iter().filter(|e| matches!(e.2, crate::sim::world::SEv::Receive(..))).count() + log.world.clients.iter().map(|c| c.events.iter().filter(|e| matches!(e.2, crate::sim::world::CEv::Receive(_))).count()).sum::<usize>();
         let in_flight = log.world.in_flight_count() > 0 || log.world.clients.iter().any(|c| c.client.as_ref().map_or(false, |cl| cl.is_active()));
         drop(log);
-        return Outcome { multi_frag_odd_delivered: false, dropped_in_flight: in_flight, deliveries };
+        return Outcome { multi_frag_odd_delivered: false, dropped_in_flight: in_flight, deliveries, other_thread_delta: 0 };
     }
     let sc = &case.sc;
     let mut sim = SimPair::new(sc);
@@ -74,8 +156,43 @@ fn exercise(case: &Case) -> Outcome {
     let dropped_in_flight = !sim.quiescent();
     let odd = sim.trace.delivs.iter().flatten().any(|d| d.data.len() > FRAG && d.data.len() % FRAG != 0);
     let deliveries = sim.trace.delivs[0].len() + sim.trace.delivs[1].len();
-    drop(sim);
-    Outcome { multi_frag_odd_delivered: odd, dropped_in_flight, deliveries }
+    let mut other_thread_delta = 0;
+    if let Some(mode) = case.thread_move {
+        let now_us = sim.now_us;
+        let SimPair { hc, .. } = sim;
+        let [a, b] = hc;
+        let (there, keep) = if mode % 3 == 2 { (vec![a], Some(b)) } else { (vec![a, b], None) };
+        let use_there = mode % 3 == 1;
+        let job: Job = Box::new(move || {
+            for mut hc in there {
+                if use_there {
+                    uflow::verif::time::set_ns(now_us * 1000 + 5_000_000);
+                    // (one byte: within every peer allocation a scenario can have)
+                    hc.send(vec![7u8; 1].into_boxed_slice(), 1, uflow::SendMode::Reliable);
+                    let mut fs = NullFrames(0);
+                    let mut ps = NullPackets(0);
+                    hc.flush(&mut fs);
+                    hc.step();
+                    hc.receive(&mut ps);
+                    hc.flush(&mut fs);
+                }
+                drop(hc);
+            }
+        });
+        let (delta, mm, pi) = on_other_thread(job);
+        other_thread_delta = delta;
+        if let Some(pi) = pi {
+            OTHER_THREAD_PANIC.with(|p| *p.borrow_mut() = Some(pi));
+        }
+        if mm.layout > 0 || mm.double_free > 0 || mm.invalid_free > 0 {
+            // reported through the same keys as on the case's own thread
+            OTHER_THREAD_FAULTS.with(|f| f.set((mm.layout, mm.double_free, mm.invalid_free)));
+        }
+        drop(keep);
+    } else {
+        drop(sim);
+    }
+    Outcome { multi_frag_odd_delivered: odd, dropped_in_flight, deliveries, other_thread_delta }
 }
 
 impl Check for C19 {
@@ -87,12 +204,12 @@ impl Check for C19 {
 
     fn strategy(&self, tier: Tier) -> BoxedStrategy<Case> {
         let p = GenParams { max_ticks: tier.pick(120, 300), max_sends: 4, max_frags: tier.pick(6, 16), tail: true, modes: [1, 2, 2, 3], ..GenParams::default() };
-        let codec = (scenario_strategy(&GenParams { max_ticks: 1, max_sends: 1, faults: false, tail: false, max_fates: 1, ..GenParams::default() }), proptest::collection::vec(crate::props::c16::parser_input_strategy(), 1..20)).prop_map(|(sc, inputs)| Case { sc, drop_after: 0, run_tail: false, world: None, codec: Some(inputs) });
+        let codec = (scenario_strategy(&GenParams { max_ticks: 1, max_sends: 1, faults: false, tail: false, max_fates: 1, ..GenParams::default() }), proptest::collection::vec(crate::props::c16::parser_input_strategy(), 1..20)).prop_map(|(sc, inputs)| Case { sc, drop_after: 0, run_tail: false, world: None, codec: Some(inputs), thread_move: None });
         // packets of up to 90 fragments (assembly buffers beyond 64 KiB take other paths in allocators and in code
         // that special-cases large blocks)
         let pb = GenParams { max_ticks: tier.pick(60, 150), max_sends: 2, max_frags: 90, tail: true, modes: [1, 2, 2, 3], tight_alloc: false, ..GenParams::default() };
-        let pair_big = (scenario_strategy(&pb), prop_oneof![2 => Just(u16::MAX), 3 => any::<u16>()], any::<bool>()).prop_map(|(sc, drop_after, run_tail)| Case { sc, drop_after, run_tail, world: None, codec: None });
-        let pair = (scenario_strategy(&p), prop_oneof![2 => Just(u16::MAX), 3 => any::<u16>()], any::<bool>()).prop_map(|(sc, drop_after, run_tail)| Case { sc, drop_after, run_tail, world: None, codec: None });
+        let pair_big = (scenario_strategy(&pb), prop_oneof![2 => Just(u16::MAX), 3 => any::<u16>()], any::<bool>()).prop_map(|(sc, drop_after, run_tail)| Case { sc, drop_after, run_tail, world: None, codec: None, thread_move: None });
+        let pair = (scenario_strategy(&p), prop_oneof![2 => Just(u16::MAX), 3 => any::<u16>()], any::<bool>()).prop_map(|(sc, drop_after, run_tail)| Case { sc, drop_after, run_tail, world: None, codec: None, thread_move: None });
         // Client / Server teardown: World scripts with a short settle phase, so that endpoints are dropped while
         // connections are pending, active (data in flight), closing or lingering
         let sp = crate::sim::script::ScriptParams { max_clients: tier.pick(3, 6), max_ops: tier.pick(80, 250), faults: true, disconnect_weight: 2, drop_weight: 1, send_weight: 10, timeouts: vec![3000, 20000], big_jumps: false, settle_us: 0, replay_weight: 1, vary_server_limits: true, stray_weight: 1, reconnect_weight: 1 };
@@ -105,7 +222,7 @@ impl Check for C19 {
                 1 => Some(0),
                 _ => None,
             };
-            Case { sc, drop_after: 0, run_tail: false, world: Some(wc), codec: None }
+            Case { sc, drop_after: 0, run_tail: false, world: Some(wc), codec: None, thread_move: None }
         });
         // one burst of a thousand and more tiny Reliable / Persistent packets over a link with 50-150 ms of latency, so
         // that well over a thousand fragments wait for their acknowledgement at once (housekeeping that only starts
@@ -127,9 +244,11 @@ impl Check for C19 {
                     d.alloc_limit = u32::MAX;
                 }
                 sc.normalize();
-                Case { sc, drop_after, run_tail: true, world: None, codec: None }
+                Case { sc, drop_after, run_tail: true, world: None, codec: None, thread_move: None }
             });
-        prop_oneof![8 => pair, 2 => pair_big, 4 => world, 2 => codec, 1 => burst].boxed()
+        // the connections change threads before they are released (HalfConnection is declared Send)
+        let moved = (scenario_strategy(&GenParams { max_ticks: tier.pick(40, 120), ..p.clone() }), prop_oneof![2 => Just(u16::MAX), 3 => any::<u16>()], any::<bool>(), 0u8..3).prop_map(|(sc, drop_after, run_tail, m)| Case { sc, drop_after, run_tail, world: None, codec: None, thread_move: Some(m) });
+        prop_oneof![8 => pair, 2 => pair_big, 4 => world, 2 => codec, 1 => burst, 2 => moved].boxed()
     }
 
     fn cases(&self, tier: Tier) -> u64 {
@@ -137,13 +256,13 @@ impl Check for C19 {
     }
 
     fn rule(&self) -> String {
-        "case = SimPair scenario (multi-fragment sizes biased to k*1448+-1 and arbitrary non-multiples, all modes, faults, small windows so that the receive window advances over partial packets) executed under the checking allocator, with the whole pair dropped after a generated number of ticks (mid-transfer) or after a fair tail. A third case kind hands the frame parser 1-19 inputs from C16's generators (valid frames, arbitrary bytes, structurally damaged frames with a recomputed checksum), re-encoding what is accepted: rejected input must leave nothing behind (non-trivial there = a damaged data frame of more than 20 bytes was rejected). (a third of the server applications read only the first - or none - of the events of a step() and drop the iterator) A second case kind runs a World script (real Server and 1-3 Clients: sends of all sizes in both directions, disconnects, Server::drop, faults) and drops Server, Clients and everything in flight after 0 / 0.3 / 3 / 25 s of settling. Freed blocks are checksummed and quarantined until the case ends. Oracle: no block released twice, no release of a pointer that is not a live block, no write into a released block; the allocator recorded no dealloc / realloc whose size or alignment differs from the one the block was allocated with, and the thread's live-byte count after everything created by the case has been dropped equals the count on entry (one warm-up execution per worker first). Non-trivial = a multi-fragment packet whose length is not a multiple of 1448 completed reassembly and was delivered, or the pair was dropped with data in flight. Distinct = distinct serialised case.".into()
+        "case = SimPair scenario (multi-fragment sizes biased to k*1448+-1 and arbitrary non-multiples, all modes, faults, small windows so that the receive window advances over partial packets) executed under the checking allocator, with the whole pair dropped after a generated number of ticks (mid-transfer) or after a fair tail. A third case kind hands the frame parser 1-19 inputs from C16's generators (valid frames, arbitrary bytes, structurally damaged frames with a recomputed checksum), re-encoding what is accepted: rejected input must leave nothing behind (non-trivial there = a damaged data frame of more than 20 bytes was rejected). (a third of the server applications read only the first - or none - of the events of a step() and drop the iterator) A second case kind runs a World script (real Server and 1-3 Clients: sends of all sizes in both directions, disconnects, Server::drop, faults) and drops Server, Clients and everything in flight after 0 / 0.3 / 3 / 25 s of settling. A further case kind hands the pair's connections to another thread when the history is over (HalfConnection is declared Send) and releases them there - at once, after using them there, or one there and one here; the live-byte changes of both threads are added up. Freed blocks are checksummed and quarantined until the case ends. Oracle: no block released twice, no release of a pointer that is not a live block, no write into a released block; the allocator recorded no dealloc / realloc whose size or alignment differs from the one the block was allocated with, and the thread's live-byte count after everything created by the case has been dropped equals the count on entry (one warm-up execution per worker first). Non-trivial = a multi-fragment packet whose length is not a multiple of 1448 completed reassembly and was delivered, or the pair was dropped with data in flight. Distinct = distinct serialised case.".into()
     }
 
     fn assumptions(&self) -> Vec<String> {
         vec![
             "layout checks cover every block released on the case's thread while the case runs (library and harness alike; the harness itself only uses safe containers)".into(),
-            "double frees are not detectable by the header scheme; the soundness of `unsafe impl Send/Sync for HalfConnection` is outside the reach of input generation".into(),
+            "the soundness of `unsafe impl Send/Sync for HalfConnection` is only touched through whole-object moves between threads (create and use on one, release or use on another); concurrent access is outside the reach of input generation".into(),
         ]
     }
 
@@ -157,6 +276,17 @@ impl Check for C19 {
         if !WARM.with(|w| w.get()) {
             let _ = exercise(&case);
             WARM.with(|w| w.set(true));
+        }
+        // (the helper thread has first-use effects of its own)
+        if case.thread_move.is_some() && !WARM_MOVE.with(|w| w.get()) {
+            for m in 0..3 {
+                let mut c = case.clone();
+                c.thread_move = Some(m);
+                let _ = exercise(&c);
+            }
+            let _ = OTHER_THREAD_FAULTS.with(|f| f.replace((0, 0, 0)));
+            let _ = OTHER_THREAD_PANIC.with(|p| p.borrow_mut().take());
+            WARM_MOVE.with(|w| w.set(true));
         }
         // parser inputs are built before the measured scope begins
         let codec_inputs: Option<Vec<Vec<u8>>> = case.codec.as_ref().map(|v| v.iter().map(crate::props::c16::case_bytes).collect());
@@ -177,13 +307,26 @@ impl Check for C19 {
             let _scope = Scope;
             if let Some(inputs) = &codec_inputs {
                 codec_accepted = exercise_codec(inputs);
-                Outcome { multi_frag_odd_delivered: false, dropped_in_flight: false, deliveries: 0 }
+                Outcome { multi_frag_odd_delivered: false, dropped_in_flight: false, deliveries: 0, other_thread_delta: 0 }
             } else {
                 exercise(&case)
             }
         };
-        let after = alloc::live();
+        if let Some(pi) = OTHER_THREAD_PANIC.with(|p| p.borrow_mut().take()) {
+            if pi.in_library() {
+                return CaseResult::fail(pi.signature(), format!("panic at {}:{} while the connection was used on a thread other than the one that created it: {}", pi.file, pi.line, pi.msg));
+            }
+            panic!("harness panic on the helper thread at {}:{}: {}", pi.file, pi.line, pi.msg);
+        }
+        let after = alloc::live() + out.other_thread_delta;
         let mm = alloc::mismatches();
+        let other = OTHER_THREAD_FAULTS.with(|f| f.replace((0, 0, 0)));
+        if other != (0, 0, 0) {
+            return CaseResult::fail(
+                if other.0 > 0 { "oracle:c19:layout_mismatch:other_thread" } else { "oracle:c19:double_free:other_thread" },
+                format!("connections handed to another thread and released there: {} deallocation(s) with a wrong layout, {} block(s) released twice, {} release(s) of pointers that are not live blocks", other.0, other.1, other.2),
+            );
+        }
         let mut classes: Vec<&'static str> = Vec::new();
         let (df, df_size) = alloc::take_double_frees();
         if df > 0 {
@@ -206,8 +349,14 @@ impl Check for C19 {
                 ),
             );
         }
+        if after != before && std::env::var_os("VERIF_DEBUG").is_some() {
+            eprintln!("[c19] before={} after_here={} other_delta={} mode={:?}", before, alloc::live(), out.other_thread_delta, case.thread_move);
+        }
         if after != before {
-            return CaseResult::fail("oracle:c19:leak", format!("live heap bytes changed by {} across a case whose objects were all dropped", after - before));
+            return CaseResult::fail(
+                if case.thread_move.is_some() { "oracle:c19:leak:moved_to_another_thread" } else { "oracle:c19:leak" },
+                format!("live heap bytes changed by {} across a case whose objects were all dropped{}", after - before, if case.thread_move.is_some() { " (the connections were created and used on one thread and released on another; both threads' counts are added up)" } else { "" }),
+            );
         }
         if out.multi_frag_odd_delivered {
             classes.push("odd_multi_fragment_delivered");
@@ -220,6 +369,9 @@ impl Check for C19 {
         }
         if case.world.is_some() {
             classes.push("world_teardown");
+        }
+        if case.thread_move.is_some() {
+            classes.push("released_on_another_thread");
         }
         if let Some(inputs) = &codec_inputs {
             classes.push("codec_inputs");
